@@ -296,6 +296,18 @@ func listAlts(fd protoreflect.FieldDescriptor, o ValueOpts) []Alt {
 				l.Append(e2)
 			}})
 		}
+		if len(mv) > 3 {
+			// three elements, each populated differently (the last three values of the element domain)
+			pick := []Alt{mv[len(mv)-1], mv[len(mv)-2], mv[len(mv)-3]}
+			out = append(out, Alt{Label: "[3 distinct]", Set: func(m protoreflect.Message) {
+				l := m.Mutable(fd).List()
+				for _, a := range pick {
+					e := l.NewElement()
+					a.Set(e.Message())
+					l.Append(e)
+				}
+			}})
+		}
 		return out
 	}
 	vals := scalarValues(fd, o.Thorough)
@@ -309,6 +321,16 @@ func listAlts(fd protoreflect.FieldDescriptor, o ValueOpts) []Alt {
 			l := m.Mutable(fd).List()
 			l.Append(v)
 			l.Append(z)
+		}})
+	}
+	if len(vals) > 2 {
+		// three distinct non-default elements
+		a, b, c := vals[len(vals)-1], vals[len(vals)-2], vals[0]
+		out = append(out, Alt{Label: "[3 distinct]", Set: func(m protoreflect.Message) {
+			l := m.Mutable(fd).List()
+			l.Append(a)
+			l.Append(b)
+			l.Append(c)
 		}})
 	}
 	return out
@@ -362,12 +384,33 @@ func mapAlts(fd protoreflect.FieldDescriptor, o ValueOpts) []Alt {
 				mp.Set(keys[2], e2)
 			}})
 		}
+		if len(mv) > 3 && len(keys) > 2 {
+			// three entries, each populated differently (values that share nothing: different lengths, different contents)
+			pick := []Alt{mv[len(mv)-1], mv[len(mv)-2], mv[len(mv)-3]}
+			out = append(out, Alt{Label: "{3 distinct}", Set: func(m protoreflect.Message) {
+				mp := m.Mutable(fd).Map()
+				for i, a := range pick {
+					e := mp.NewValue()
+					a.Set(e.Message())
+					mp.Set(keys[i], e)
+				}
+			}})
+		}
 		return out
 	}
 	vals := scalarValues(vd, o.Thorough)
 	for _, v := range vals {
 		v := v
 		out = append(out, Alt{Label: "{k:" + label(vd, v) + "}", Set: func(m protoreflect.Message) { m.Mutable(fd).Map().Set(keys[0], v) }})
+	}
+	if len(vals) > 2 && len(keys) > 2 {
+		a, b, c := vals[len(vals)-1], vals[len(vals)-2], vals[0]
+		out = append(out, Alt{Label: "{3 distinct}", Set: func(m protoreflect.Message) {
+			mp := m.Mutable(fd).Map()
+			mp.Set(keys[0], a)
+			mp.Set(keys[1], b)
+			mp.Set(keys[2], c)
+		}})
 	}
 	if len(vals) > 0 && len(keys) > 1 {
 		v, z := vals[0], zeroValue(vd)
